@@ -22,7 +22,7 @@ func main() {
 	seed := flag.Uint64("seed", 1, "seed")
 	out := flag.String("out", "", "output jsonl")
 	replay := flag.String("replay", "", "replay file")
-	profile := flag.String("profile", "registry", "registry | exhaustive | concurrent | hostile")
+	profile := flag.String("profile", "registry", "registry | exhaustive | concurrent | hostile | httpmatrix")
 	depth := flag.Int("depth", 3, "exhaustive: maximal history length")
 	maxCases := flag.Int("max-cases", 4000, "exhaustive: case budget")
 	workers := flag.Int("workers", 6, "parallel histories / sessions")
@@ -108,6 +108,19 @@ func main() {
 			o.Emit(c)
 		}
 		o.Stat("sessions", len(ss))
+	case "none":
+		// nothing (a tier that does not use this driver slot)
+	case "httpmatrix":
+		ss := genMatrix(24)
+		results := make([]lib.Case, len(ss))
+		parallel(len(ss), *workers, func(i int) { results[i] = runSession(ss[i]) })
+		reqs := 0
+		for i, c := range results {
+			o.Emit(c)
+			reqs += len(ss[i].Acts)
+		}
+		o.Stat("matrix_sessions", len(ss))
+		o.Stat("matrix_actions", reqs)
 	case "exhaustive":
 		exhaustive(o, *depth, *maxCases, *workers)
 	case "concurrent":
